@@ -240,7 +240,8 @@ func sepFor(cf string) string {
 func (p *PSpecJ) probes(r *rng.R) [][]string {
 	sep := sepFor(p.CF)
 	out := [][]string{nil, {""}, p.validRaw(), append([]string{"zzz"}, p.validRaw()...)}
-	scal := []string{"a", "ab", "abcdefgh", "0", "1", "7", "-1", "15", "16", "2147483648", "9223372036854775808", "+3", "1.5", "x1", " 3", "true", "TRUE", "no", "maybe", "é", "b"}
+	scal := []string{"a", "ab", "abcdefgh", "0", "1", "7", "-1", "15", "16", "2147483648", "9223372036854775808", "+3", "1.5", "x1", " 3", "true", "TRUE", "no", "maybe", "é", "b",
+		"ab ", " ab", " ", "abc\n", " 7 ", "true "}
 	if !p.IsArray {
 		for _, s := range scal {
 			out = append(out, []string{s})
